@@ -53,6 +53,10 @@ type TNode struct {
 // typedUnitary: the next typed monitor is built with the package's unitary handler (ToUnitary)
 var typedUnitary bool
 
+// handlerBuilderReuse: the next monitor's handler comes from a builder that is
+// used again afterwards (other callbacks, a second Create)
+var handlerBuilderReuse bool
+
 // typedBuilders is filled by the per-package glue files (generated from
 // typed_glue.go.tmpl by build_sim.sh, one per typed package).
 var typedBuilders = map[string]func(ctx context.Context, log logutil.Log, c client.Client) (*TNode, error){}
@@ -161,9 +165,14 @@ func untypedCtrl(c kcache.Controller, fc kcache.FilterController) *TNode {
 					}
 				}
 			}
-			h := kcache.BuildHandler().
+			b := kcache.BuildHandler().
 				OnInitialize(func(objs []metav1.Object) { rec(TCall{Kind: "init", Objs: specsOrNil(objs)}) }).
-				OnCreate(one("create")).OnUpdate(one("update")).OnDelete(one("delete")).Create()
+				OnCreate(one("create")).OnUpdate(one("update")).OnDelete(one("delete"))
+			h := b.Create()
+			if handlerBuilderReuse {
+				b.OnInitialize(func(objs []metav1.Object) { rec(TCall{Kind: "second:init", Objs: specsOrNil(objs)}) }).
+					OnCreate(one("second:create")).OnUpdate(one("second:update")).OnDelete(nil).Create()
+			}
 			return kcache.NewMonitor(c, h)
 		},
 	}
@@ -189,6 +198,7 @@ type DAct struct {
 	SlowMs  int               `json:"slow_ms,omitempty"`
 	Ms      int               `json:"ms,omitempty"`
 	Unitary bool              `json:"unitary,omitempty"` // monitor: the typed side uses the package's UnitaryHandler through ToUnitary
+	ReuseBuilder bool          `json:"reuse_builder,omitempty"` // monitor: the handler builder is used again after Create (the created handler is a finished value)
 	Stalled bool              `json:"stalled,omitempty"` // the subscriber does not read until the end (C10's typed position)
 }
 
@@ -267,7 +277,7 @@ func genC20(g GenCtx) interface{} {
 			// one event per write and per stage only: no filters (a refilter is a batch), no monitors
 			k = pick(rng, "sub", "sub", "clone")
 		}
-		sc.Acts = append(sc.Acts, DAct{Op: "mknode", Node: p, Kind: k, Filter: randFilter(rng), SlowMs: pickInt(rng, 0, 0, 3), Unitary: k == "monitor" && rng.Intn(3) == 0})
+		sc.Acts = append(sc.Acts, DAct{Op: "mknode", Node: p, Kind: k, Filter: randFilter(rng), SlowMs: pickInt(rng, 0, 0, 3), Unitary: k == "monitor" && rng.Intn(3) == 0, ReuseBuilder: k == "monitor" && rng.Intn(3) == 0})
 		switch k {
 		case "clone", "clonef", "cloneff":
 			pubs = append(pubs, nodes)
@@ -628,9 +638,14 @@ func runC20(sci interface{}) {
 				n.u, e2 = up.CloneForFilter()
 			case "monitor":
 				typedUnitary, n.unitary = a.Unitary, a.Unitary
+				handlerBuilderReuse = a.ReuseBuilder
+				if a.ReuseBuilder {
+					detsim.Count("probe:handler-builder-used-again-after-create")
+				}
 				n.tmonitor, e1 = tp.Monitor(func(c TCall) { n.tmon = append(n.tmon, c) }, a.SlowMs)
 				typedUnitary = false
 				n.umonitor, e2 = up.Monitor(func(c TCall) { n.umon = append(n.umon, c) }, a.SlowMs)
+				handlerBuilderReuse = false
 				n.t, n.u = &TNode{}, &TNode{}
 			default:
 				dead()
@@ -812,14 +827,14 @@ func callSigs(calls []TCall, restrict bool) []string {
 			out = append(out, c.Kind+" <nil>")
 			continue
 		}
-		if c.Kind == "init" {
+		if c.Kind == "init" || len(c.Objs) == 0 {
 			var keep []world.Spec
 			for _, o := range c.Objs {
 				if !restrict || !isForeign(o) {
 					keep = append(keep, o)
 				}
 			}
-			out = append(out, fmt.Sprintf("init %v", world.SpecIDs(keep)))
+			out = append(out, fmt.Sprintf("%s %v", c.Kind, world.SpecIDs(keep)))
 			continue
 		}
 		if restrict && len(c.Objs) == 1 && isForeign(c.Objs[0]) {
